@@ -272,7 +272,22 @@ func frameHistory(r *engine.Run, quickDepth int) {
 	if err := lorawan.RegisterProprietaryMACCommand(true, lorawan.CID(0x90), 2); err != nil {
 		r.HarnessError("history/frames: registering the proprietary command failed: %v", err)
 	}
-	historyPart(r, "history/frames", hFrameOps(), d)
+	ops := hFrameOps()
+	if refused := hRefusedGood; len(refused) > 0 {
+		// every frame of the good alphabet is a specification-valid frame built from exported fields;
+		// "down-empty" carries FCtrl bit 4 the way the decoder reports it (FPending and ClassB both
+		// set), which only C08 (accepted frames re-encode) obliges the encoder to take
+		r.Part("history/frames/alphabet", uint64(len(refused)), func(c *engine.Case) {
+			c.Eval()
+			f := refused[c.Index]
+			if f[0] == "down-empty" && r.Prop != "C08" {
+				c.Outcome("history/alphabet-frame-left-out")
+				return
+			}
+			c.Fail("history/frames/encoder-refuses-valid-frame", fmt.Sprintf("frame %q of the alphabet (a valid frame, equal to what the decoder returns for its bytes) is refused by the encoder: %s", f[0], f[1]), nil)
+		})
+	}
+	historyPart(r, "history/frames", ops, d)
 	lorawan.VerifRegistryReset()
 }
 
